@@ -49,7 +49,7 @@ static int spec_entry(int o, int j)
   }
   return 0;
 }
-static int present(int o) { return o == 0 ? IN(present0) != 0 : o == 1 ? IN(present1) != 0 : IN(present2) != 0; }
+static int present(int o) { return o == 0 ? IN(present0) != 0 : o == 1 ? IN(present1) != 0 : (IN(present2) != 0 && !IN(obj2_foreign)); }
 static int spec_found(int o)
 {
   if (!present(o) || !OBJX(o, VALID)) return 0;
@@ -104,7 +104,7 @@ void vp_call_find_ulong(void) { vp_rv = vp_find_ulong(); }
 void vp_call_find_bool(void) { vp_rv = vp_find_bool(); }
 void vp_call_find_bytes(void) { vp_rv = vp_find_bytes(); }
 void vp_call_find_two(void) { vp_rv = vp_find_two(); }
-void h_find_empty(void) { HAV(); vp_call_find_empty(); VP_COVER(vp_rv == CKR_OK && OUT(found0) && OUT(found2)); VP_COVER(vp_rv == CKR_OK && !VP_SES_USER && IN(present0) && priv_of(0) && !OUT(found0)); VP_COVER(vp_rv == CKR_OPERATION_ACTIVE); }
+void h_find_empty(void) { HAV(); vp_call_find_empty(); VP_COVER(vp_rv == CKR_OK && OUT(found0) && OUT(found2)); VP_COVER(vp_rv == CKR_OK && !VP_SES_USER && IN(present0) && priv_of(0) && !OUT(found0)); VP_COVER(vp_rv == CKR_OPERATION_ACTIVE); VP_COVER(vp_rv == CKR_OK && IN(present2) && IN(obj2_foreign) && OBJX(2, VALID) && !OUT(found2) && OUT(found0)); }
 void h_find_ulong(void) { HAV(); vp_call_find_ulong(); VP_COVER(vp_rv == CKR_OK && OUT(found0) && !OUT(found2) && IN(present2) && OBJX(2, VALID)); VP_COVER(vp_rv == CKR_OK && OUT(found2)); }
 void h_find_bool(void) { HAV(); vp_call_find_bool(); VP_COVER(vp_rv == CKR_OK && OUT(found0) && !OUT(found2) && IN(present2) && OBJX(2, VALID)); VP_COVER(vp_rv == CKR_OK && OUT(found2)); }
 void h_find_bytes(void) { HAV(); vp_call_find_bytes(); VP_COVER(vp_rv == CKR_OK && OUT(found0) && priv_of(0) && TMPL(0, LEN) == 5); VP_COVER(vp_rv == CKR_OK && OUT(found2) && !priv_of(2) && TMPL(0, LEN) == 8); VP_COVER(vp_rv == CKR_GENERAL_ERROR); VP_COVER(vp_rv == CKR_OK && OUT(found0) && TMPL(0, LEN) == 0); }
